@@ -23,8 +23,15 @@
         -> return runForkJoin(fallbacks)
      return out, err
 
-   Not modelled: the HTTP stack; a node call that ignores cancellation of its context; metrics and
-   the best-node selector (its counter is used by the harness only as an observation of the winner). *)
+   A node call may ignore cancellation of its context ([deaf], e.g. stuck in a dial / DNS lookup / TLS
+   handshake): it returns at its own latency whatever happens.  provide abandons such calls (the
+   deferred cancel() of the fork-join does not wait for the workers), so they delay neither another
+   node's successful answer nor -- as long as some awaited node does honour its context -- the
+   caller's cancellation.  When ONLY deaf calls are awaited at the instant of cancellation the join
+   loop notices the cancellation with the next result, i.e. when the next deaf call returns.
+
+   Not modelled: the HTTP stack; metrics and the best-node selector (its counter is used by the
+   harness only as an observation of the winner). *)
 From Coq Require Import List NArith Bool Arith Lia.
 Import ListNotations.
 Local Open Scope N_scope.
@@ -71,14 +78,16 @@ Inductive outcome :=
 | Err (c : eclass)
 | Hang.             (* never completes by itself; returns when its context is cancelled *)
 
-Record node := mkn { out : outcome; delay : N }.
-Definition hung : node := mkn Hang 0.
+Record node := mkn { out : outcome; delay : N; deaf : bool }.   (* deaf: the call ignores its context *)
+Definition hung : node := mkn Hang 0 false.
 Definition get (l : list node) (i : nat) : node := nth i l hung.
 
 Definition is_hang (o : outcome) : bool := match o with Hang => true | _ => false end.
 Definition is_succ (o : outcome) : bool := match o with Success _ => true | _ => false end.
 Definition failed (o : outcome) : bool := match o with Err _ | Soft _ => true | _ => false end.
 Definition has_hang (l : list node) : bool := existsb (fun n => is_hang (out n)) l.
+(* the call returns as soon as its context is cancelled (a Hang node does by definition) *)
+Definition hears (n : node) : bool := negb (deaf n) || is_hang (out n).
 Definition is_nil {A} (l : list A) : bool := match l with [] => true | _ => false end.
 
 (* ctx.Err() != nil at instant t, when the context is cancelled at tc. *)
@@ -92,17 +101,30 @@ Inductive gres :=
 | GLast (i : nat)         (* every node completed, none succeeded: the last completing one is kept *)
 | GBug                    (* no node at all *)
 | GBlocked                (* waits for a hung node forever *)
-| GCancelled.             (* ctx.Err() *)
+| GCancelled (t : N).     (* ctx.Err(), noticed at instant t *)
+
+(* Some node still awaited (the remaining completions [rest], or a hung node) returns when cancelled. *)
+Definition hearer (l : list node) (rest : list nat) : bool :=
+  existsb (fun j => hears (get l j)) rest || has_hang l.
+
+(* Instant at which the loop, blocked since before the cancellation at tc, receives its next result;
+   t = instant of the next completion by itself.  A context that is dead before the group starts
+   means no node is called at all (the workers skip the work). *)
+Definition notice (l : list node) (base : N) (tc : option N) (rest : list nat) (t : N) : N :=
+  match tc with
+  | Some c => if c <=? base then base else if hearer l rest then c else t
+  | None => t
+  end.
 
 Fixpoint scan (l : list node) (base : N) (tc : option N) (order : list nat) (last : option nat) (now : N) : gres :=
   match order with
   | [] =>
-      if has_hang l then match tc with Some _ => GCancelled | None => GBlocked end
-      else if cancelled tc now then GCancelled
+      if has_hang l then match tc with Some c => GCancelled (N.max c base) | None => GBlocked end
+      else if cancelled tc now then GCancelled now
       else match last with None => GBug | Some i => GLast i end
   | i :: r =>
       let t := base + delay (get l i) in
-      if cancelled tc t then GCancelled
+      if cancelled tc t then GCancelled (notice l base tc (i :: r) t)
       else match out (get l i) with
            | Success a => GOk i a
            | _ => scan l base tc r (Some i) t
@@ -113,11 +135,11 @@ Definition run_group (l : list node) (base : N) (tc : option N) (order : list na
   scan l base tc order None base.
 
 (* instant at which the group's loop returns *)
-Definition gtime (l : list node) (base : N) (tc : option N) (g : gres) : option N :=
+Definition gtime (l : list node) (base : N) (g : gres) : option N :=
   match g with
   | GOk i _ | GLast i => Some (base + delay (get l i))
   | GBug => Some base
-  | GCancelled => tc
+  | GCancelled t => Some t
   | GBlocked => None
   end.
 
@@ -144,7 +166,7 @@ Definition lift (w : nat -> nref) (l : list node) (g : gres) : result :=
                end
   | GBug => RBug
   | GBlocked => RBlocked
-  | GCancelled => RCtx
+  | GCancelled _ => RCtx
   end.
 
 (* err != nil && len(fallbacks) != 0 && (isTimeoutError err || isSyncingError err || isBadGateway err).
@@ -171,14 +193,14 @@ Definition consulted (prim fb : list node) (pord : list nat) (tc : option N) : b
 
 Definition finish_time (prim fb : list node) (pord ford : list nat) (tc : option N) : option N :=
   let g := run_group prim 0 tc pord in
-  if consult prim fb g then gtime fb (gbase prim g) tc (run_group fb (gbase prim g) tc ford)
-  else gtime prim 0 tc g.
+  if consult prim fb g then gtime fb (gbase prim g) (run_group fb (gbase prim g) tc ford)
+  else gtime prim 0 g.
 
 (* ---- submit: provide over work functions that return no value, success predicate nil ---- *)
 
 Inductive soutcome := SOk | SErr (c : eclass) | SHang.
 Definition inj (n : soutcome * N) : node :=
-  mkn (match fst n with SOk => Success 0 | SErr c => Err c | SHang => Hang end) (snd n).
+  mkn (match fst n with SOk => Success 0 | SErr c => Err c | SHang => Hang end) (snd n) false.
 Inductive sresult := SROk (n : nref) | SRErr (n : nref) (c : eclass) | SRBug | SRCtx | SRBlocked.
 Definition erase (r : result) : sresult :=
   match r with
@@ -195,32 +217,33 @@ Inductive nstat :=
 | NotCalled
 | Done (t : N)        (* completed by itself at t *)
 | Cancelled (t : N)   (* saw its context cancelled at t *)
-| Pending.            (* called, still running when the observation was taken (blocked call) *)
+| Pending.            (* called, still running when the observation was taken (blocked call, or a deaf call) *)
 
 Definition expect_stat (started : bool) (base : N) (T : option N) (n : node) : nstat :=
   if negb started then NotCalled
   else let t := base + delay n in
        match T with
        | None => if is_hang (out n) then Pending else Done t
-       | Some T => if negb (is_hang (out n)) && (t <=? T) then Done t else Cancelled T
+       | Some T => if negb (is_hang (out n)) && (t <=? T) then Done t
+                   else if hears n then Cancelled T else Pending
        end.
 
 Record mobs := mkm { m_res : result; m_time : option N; m_sp : list nstat; m_sf : list nstat }.
 
 Definition model (prim fb : list node) (pord ford : list nat) (tc : option N) : mobs :=
   let g := run_group prim 0 tc pord in
-  let tp := gtime prim 0 tc g in
+  let tp := gtime prim 0 g in
   let sp := map (expect_stat (negb (cancelled tc 0)) 0 tp) prim in
   if consult prim fb g then
     let b := gbase prim g in
     let gf := run_group fb b tc ford in
-    let tf := gtime fb b tc gf in
+    let tf := gtime fb b gf in
     mkm (lift F fb gf) tf sp (map (expect_stat true b tf) fb)
   else mkm (lift P prim g) tp sp (map (fun _ => NotCalled) fb).
 
 (* ---- labels (one per observed call) and their acceptance by the model ---- *)
 
-Inductive style := Plain | Pred | Submit.   (* success predicate nil / non-nil / submit *)
+Inductive style := Plain | Pred | Submit | Proxy.   (* success predicate nil / non-nil / submit / multi.Proxy *)
 
 Record case := mkc {
   c_style : style;
@@ -286,7 +309,7 @@ Definition no_soft (l : list node) : bool :=
 Definition style_ok (c : case) : bool :=
   match c_style c with
   | Pred => true
-  | Plain => no_soft (c_prim c) && no_soft (c_fb c)
+  | Plain | Proxy => no_soft (c_prim c) && no_soft (c_fb c)
   | Submit => no_soft (c_prim c) && no_soft (c_fb c)
               && forallb (fun n => match out n with Success a => a =? 0 | _ => true end) (c_prim c ++ c_fb c)
   end.
@@ -386,11 +409,21 @@ Definition m_fallback (c : case) : bool :=
       then fb_all_called c else true)
   && (if forallb (fun n => not_unavail (out n)) prim then negb (fb_any_called c) else true).
 
-(* "cancelling the caller's context returns promptly" *)
+(* "cancelling the caller's context returns promptly": not later than the cancellation, provided a
+   node that is awaited at that instant honours its context (every node does; or a primary that has
+   not completed by then does; or the fallbacks are running and one of them that cannot have
+   completed by then does).  A call that awaits only context-ignoring nodes returns with the next of
+   them; the property text cannot be met by any implementation then, the monitor is silent. *)
+Definition pending_hearer (tc : N) (l : list node) : bool :=
+  existsb (fun n => hears n && (is_hang (out n) || (tc <=? delay n))) l.
 Definition m_cancel (c : case) : bool :=
   match c_tc c with
   | None => true
-  | Some tc => match o_time c with Some t => t <=? tc | None => false end
+  | Some tc =>
+      if forallb hears (c_prim c ++ c_fb c) || pending_hearer tc (c_prim c)
+         || (fb_any_called c && pending_hearer tc (c_fb c))
+      then match o_time c with Some t => t <=? tc | None => false end
+      else match o_time c with Some _ => true | None => false end
   end.
 
 (* whatever is returned is one configured node's own answer or error *)
